@@ -342,7 +342,7 @@ Qed.
 (* ---- ORemAt ---- *)
 Lemma step_remat st x i : Inv st -> step_good st (ORemAt x i).
 Proof.
-  intros IV. unfold step_good. cbn [step spec_step]. rewrite sget_abs.
+  intros IV. unfold step_good. cbn [step spec_step]. unfold rem_at. rewrite sget_abs.
   destruct (getv (svars st) x) as [c|] eqn:G; cbn [option_map]; [|exists false, st; auto].
   destruct (inv_get st x c IV G) as (H & Hb & WF). pose proof (inv_wf _ IV) as W.
   destruct c as [a|n]; cbn [cids cbks vwf abs_cont] in *; rewrite map_length.
@@ -870,6 +870,51 @@ Proof.
     fold (nabs w' c') (nabs (sw st) n) (nabs (sw st) m). rewrite K, A. reflexivity.
 Qed.
 
+(* ---- OAppendRange ---- *)
+Lemma step_appendrange st x y i n : Inv st -> step_good st (OAppendRange x y i n).
+Proof.
+  intros IV. unfold step_good. cbn [step spec_step]. rewrite !sget_abs.
+  destruct (getv (svars st) x) as [cx|] eqn:Gx; cbn [option_map]; [|exists false, st; auto].
+  destruct (getv (svars st) y) as [cy|] eqn:Gy; cbn [option_map];
+    [|destruct (abs_cont (sw st) cx); destruct cx; exists false, st; auto].
+  destruct (inv_get st x cx IV Gx) as (Hx & Hbx & WFx). destruct (inv_get st y cy IV Gy) as (Hy & Hby & WFy).
+  pose proof (inv_wf _ IV) as W.
+  destruct cx as [a|c], cy as [b|m]; cbn [cids cbks vwf abs_cont kind_of is_array andb] in *;
+    rewrite ?WFx, ?WFy; cbn [andb]; try (exists false, st; auto; fail).
+  rewrite map_length.
+  destruct (i + n <=? length (aelems b)) eqn:L; [|exists false, st; auto].
+  assert (R : exists a' w', arr_append_range a (if Nat.eqb x y then None else Some b) i n (sw st) = Ok (a', w') /\
+                trans (sw st) w' (aelems a) (aelems a') (ablks a) (ablks a') /\
+                avals w' a' = avals (sw st) a ++ firstn n (skipn i (avals (sw st) b)) /\ awf a').
+  { destruct (Nat.eqb_spec x y) as [->|NE].
+    - rewrite Gx in Gy. inversion Gy. subst b.
+      destruct (arr_append_range_ok a None i n (sw st) W) as (a' & w' & E & T & V & WF'); auto.
+      { cbn [other_elems]. rewrite app_nil_r. exact Hx. }
+      exists a', w'. auto.
+    - pose proof (inv_holds2 st x y _ _ IV NE (getv_nth _ _ _ Gx) (getv_nth _ _ _ Gy)) as H2. cbn [vids cids] in H2.
+      destruct (arr_append_range_ok a (Some b) i n (sw st) W H2 Hbx WFx) as (a' & w' & E & T & V & WF').
+      exists a', w'. auto. }
+  destruct R as (a' & w' & E & T & V & WF').
+  destruct (put_ok st x (Some (CA a)) (CA a') w' _ IV (getv_nth _ _ _ Gx) (lift_ok CA _ _ _ _ E) T WF') as (st' & E' & IV' & A').
+  exists true, st'. split; [exact E'|]. split; [exact IV'|]. rewrite A'. cbn [abs_cont].
+  fold (aabs w' a') (aabs (sw st) a) (aabs (sw st) b). rewrite !aabs_avals, V, map_app, skipn_map, firstn_map. reflexivity.
+Qed.
+
+(* ---- ORemVia: the other removing entry points are ORemAt at the index they denote ---- *)
+Lemma abs_cont_len w c : length (snd (abs_cont w c)) = clen c /\ fst (abs_cont w c) = kind_of c.
+Proof. destruct c as [a|n]; cbn [abs_cont snd fst clen kind_of]; rewrite map_length; auto. Qed.
+
+Lemma step_remvia st v x i : Inv st -> step_good st (ORemVia v x i).
+Proof.
+  intros IV. unfold step_good. cbn [step spec_step]. rewrite sget_abs.
+  destruct (getv (svars st) x) as [c|] eqn:G; cbn [option_map]; [|exists false, st; auto].
+  destruct (abs_cont_len (sw st) c) as [EL EK].
+  destruct (abs_cont (sw st) c) as [k l] eqn:AC. cbn [fst snd] in EL, EK. rewrite EL, EK.
+  destruct (via_idx v (kind_of c) (clen c) i) as [j|]; [|exists false, st; auto].
+  pose proof (step_remat st x j IV) as R. unfold step_good in R. cbn [step spec_step] in R.
+  rewrite sget_abs, G in R. cbn [option_map] in R. rewrite AC, EL, EK in R. exact R.
+Qed.
+
 (* ---------------------------------------------------------------------------------------- *)
 (* all operations                                                                             *)
 (* ---------------------------------------------------------------------------------------- *)
@@ -889,4 +934,6 @@ Proof.
   - apply step_remall; auto.
   - apply step_reserve; auto.
   - apply step_resize; auto.
+  - apply step_appendrange; auto.
+  - apply step_remvia; auto.
 Qed.
